@@ -24,7 +24,7 @@
 (* *MetaTmp/RenameMeta = Field.saveMeta; Recover = fragment.openStorage -> *)
 (* Bitmap.unmarshalPilosaRoaring and TranslateFile.replayEntries.          *)
 (*                                                                         *)
-(* The three repairs made in /repo are switches, so that the model of the  *)
+(* The four repairs made in /repo are switches, so that the model of the  *)
 (* code as found (all TRUE) and of the code as it is now (all FALSE) can   *)
 (* both be checked:                                                        *)
 (*   TornTailFails    a file ending inside its last entry makes Open fail  *)
@@ -33,6 +33,9 @@
 (*                    (now: one write)                                     *)
 (*   RowOpAsync       Store/ClearRow are acknowledged before the queued    *)
 (*                    snapshot ran (now: they wait for it)                 *)
+(*   MultiSeparateWrites  the entries of a multi / batch2 write are        *)
+(*                    appended one write(2) each (now: fragment.bufferOps  *)
+(*                    appends them all with a single write)                *)
 (*                                                                         *)
 (* Write kinds (what one API call does to the fragments it changes):       *)
 (*   bit     one entry per fragment                  Set/Clear, bulk import*)
@@ -59,7 +62,7 @@ CONSTANTS Frags,            \* fragment files (one per field/view/shard)
           MaxOpN,           \* snapshot threshold
           Kinds,            \* enabled write kinds
           KeyChunks,        \* writes needed for one translate entry
-          TornTailFails, RoaringTwoWrites, RowOpAsync,
+          TornTailFails, RoaringTwoWrites, RowOpAsync, MultiSeparateWrites,
           Contentless,
           NoOpnSnapshot     \* (Contentless only) TRUE: MaxOpN is never exceeded (the default 10000)
 
@@ -126,8 +129,8 @@ RowKinds    == {"rowop", "large"}
 
 Budget(kind) ==
     CASE kind = "bit"     -> 1
-      [] kind = "multi"   -> IF Contentless THEN 16 ELSE Cardinality(Bits)
-      [] kind = "batch2"  -> 2
+      [] kind = "multi"   -> IF ~MultiSeparateWrites THEN 1 ELSE IF Contentless THEN 16 ELSE Cardinality(Bits)
+      [] kind = "batch2"  -> IF ~MultiSeparateWrites THEN 1 ELSE 2
       [] kind = "roaring" -> 1
       [] OTHER            -> 0
 
@@ -153,10 +156,10 @@ Free(f) == sq[f] \notin {"created", "written"}       \* the snapshot worker does
 
 Entry(f) ==
     IF Contentless THEN NoEntry
-    ELSE CASE infl.kind = "multi" ->
+    ELSE CASE infl.kind = "multi" /\ MultiSeparateWrites ->
                 LET b == Least((goal[f] \ mem[f]) \cup (mem[f] \ goal[f]))
                 IN IF b \in goal[f] THEN [add |-> {b}, rem |-> {}] ELSE [add |-> {}, rem |-> {b}]
-           [] infl.kind = "batch2" ->
+           [] infl.kind = "batch2" /\ MultiSeparateWrites ->
                 IF goal[f] \ mem[f] # {} THEN [add |-> goal[f] \ mem[f], rem |-> {}]
                                          ELSE [add |-> {}, rem |-> mem[f] \ goal[f]]
            [] OTHER -> [add |-> goal[f] \ mem[f], rem |-> mem[f] \ goal[f]]
@@ -172,7 +175,9 @@ Bump(f, e) ==
                      THEN (IF NoOpnSnapshot THEN sq ELSE [sq EXCEPT ![f] = "maybe"])
                      ELSE (IF n > MaxOpN THEN [sq EXCEPT ![f] = "queued"] ELSE sq)
 
-\* one write(2) appending one complete op log entry
+\* one write(2) appending one complete op log entry (or, for multi / batch2 writes as they
+\* are now, all entries of the write: replay applies them in order, the net effect is the
+\* difference between the old and the new content)
 AppendOp(f) ==
     /\ pc = "run" /\ InData /\ f \in infl.frags /\ Free(f) /\ ~hdr[f]
     /\ infl.kind \in AppendKinds \cup {"large"} \/ (infl.kind = "roaring" /\ ~RoaringTwoWrites)
